@@ -64,6 +64,7 @@ func c11Actions() []c11Action {
 		{Name: "generate operation -n getItems", Gen: []string{"operation", "-n", "getItems"}},
 		{Name: "generate support", Gen: []string{"support"}},
 		{Name: "generate server -A TodoList -C <documented default-server.yml>", Gen: []string{"server", "-A", "TodoList", "-C", "@layout"}},
+		{Name: "generate server --implementation-package", Gen: []string{"server", "--implementation-package", "example.com/impl"}},
 		{Name: "user: append a marker to the configure file", User: "marker"},
 		{Name: "user: add restapi/user.go and models/user.go", User: "files"},
 		{Name: "spec: toggle operation getExtra", ToggleOp: true},
@@ -103,7 +104,8 @@ func documentedServerLayout() string {
 }
 
 var c11UserFiles = map[string]string{
-	"restapi/user.go": "package restapi\n\n// user code\nfunc userHelper() int { return 42 }\n",
+	// user code next to generated code, using the go-openapi errors package like the documented authenticators
+	"restapi/user.go": "package restapi\n\nimport \"github.com/go-openapi/errors\"\n\n// user code\nfunc userHelper() error { return errors.New(401, \"no\") }\n",
 	"models/user.go":  "package models\n\n// user code\nvar UserValue = 7\n",
 }
 
@@ -212,7 +214,7 @@ func RunC11(tier, replay string) int {
 	if tier == "thorough" {
 		depth = 5
 	}
-	r.Rule = fmt.Sprintf("explicit-state breadth-first search from the empty target directory; state = (spec variant out of 4, full content of the target directory); 14 actions: generate server (plain, with the documented custom layout -C default-server.yml, --regenerate-configureapi, --exclude-main, --skip-models, --skip-tag-packages), generate client / model / operation -n / support, user appends to the configure file, user adds own files next to generated ones, spec gains/loses an operation, spec gains/loses a definition; every transition runs the real swagger binary on a copy of the source state (fixed module-relative location); states are de-duplicated by content hash; search to depth %d or fixpoint. Invariants on every transition: I1 user-created files unchanged; I2 configure file untouched unless regeneration is requested; I3 every file a fresh run of the same command would write is byte-identical to the fresh version; I4 nothing is deleted. distinct = transition (state, action); non-trivial = generator transitions", depth)
+	r.Rule = fmt.Sprintf("explicit-state breadth-first search from the empty target directory; state = (spec variant out of 4, full content of the target directory); 15 actions: generate server (plain, with the documented custom layout -C default-server.yml, --regenerate-configureapi, --exclude-main, --skip-models, --skip-tag-packages, --implementation-package), generate client / model / operation -n / support, user appends to the configure file, user adds own files next to generated ones, spec gains/loses an operation, spec gains/loses a definition; every transition runs the real swagger binary on a copy of the source state (fixed module-relative location); states are de-duplicated by content hash; search to depth %d or fixpoint. Invariants on every transition: I1 user-created files unchanged; I2 configure file untouched unless regeneration is requested; I3 every file a fresh run of the same command would write is byte-identical to the fresh version; I4 nothing is deleted. distinct = transition (state, action); non-trivial = generator transitions", depth)
 	r.Assume = []string{"generation is deterministic per (command, spec) - C07's business; the fresh-generation cache relies on it and a divergence would surface as an I3 violation", "user files are recognised by name (restapi/user.go, models/user.go), a user-edited configure file by its marker"}
 	s := NewScratch("C11")
 	defer s.Close()
